@@ -22,6 +22,8 @@ type roundObs struct {
 	Old    *tree.Tree // dest before the round
 	Src    *tree.Tree // source view of the round
 	SrcF   *tree.Tree // source view as rewritten by the receiver's Filter (== Src without one)
+	// SizeOff: announced size minus number of bytes sent, for the paths where they differ
+	SizeOff map[string]int64
 	New    *tree.Tree // dest after the round
 	Stats  []*types.Stat
 	Reqs   []string // requested paths, in order
@@ -132,6 +134,23 @@ func runHistoryFrom(c *core.Ctx, r *core.Result, ho histOpt, cur *tree.Tree, edi
 			return nil
 		}
 		ro.Old = old
+		if sf, ok := fs.(*synthFS); ok {
+			// some new files are announced larger than the bytes that follow
+			// (C07 does the same from its reference sender): what is stored,
+			// and hashed, is what was sent
+			if R2 := core.NewRand(core.Mix(c.Seed, "hist-announced-size", c.Index*64+round)); R2.P(1, 4) {
+				off := map[string]int64{}
+				for _, e := range ro.Src.Entries {
+					if e.Type == tree.File && e.LinkTo == "" && ro.Src.GroupOf(e.Path) == "" && len(e.Data) > 0 && old.Get(e.Path) == nil && R2.P(1, 2) {
+						off[e.Path] = int64(core.Pick(R2, []int{1, 5, 4096, 40000}))
+					}
+				}
+				if len(off) > 0 {
+					sf.SizeOff, ro.SizeOff = off, off
+					r.Count("rounds_with_announced_size_above_content", 1)
+				}
+			}
+		}
 		nrec := newNotifyRec()
 		ropt := fsutil.ReceiveOpt{NotifyHashed: nrec.fn, ContentHasher: newHasher().fn, Differ: ro.Differ, Filter: ho.Filter}
 		ro.SrcF = ro.Src
